@@ -54,7 +54,7 @@ func (c01) Assumptions() []string {
 		"the reference interpreter (harness/model) encodes the property text; it shares no code with ysgo",
 		"commands registered by the harness are complete on return; a runner may still report 'waiting' before noticing, such polls are skipped",
 		"comparison stops at the first error of a path: what a runner does after an error is not specified by C01",
-		"logged probe functions are placed only where the property text fixes evaluation (line and option texts, set/call/command statements, first if condition)",
+		"logged probe functions are placed only where the property text fixes evaluation (line and option texts, set/call/command statements, the conditions of an if chain: a clause is evaluated only if every clause before it was false)",
 		"numbers outside the plain display zone (exponent notation, NaN, Inf) are not compared literally",
 	}
 }
